@@ -249,7 +249,7 @@ def run_case(case, workdir, res):
 
 def shards(tier, seed):
     ns = NSHARDS[tier]
-    return [{"index": i, "of": ns, "n": 16 if tier == "quick" else 60, "watchdog_s": TIMEOUT[tier] - 30} for i in range(ns)]
+    return [{"index": i, "of": ns, "n": 16 if tier == "quick" else 36, "watchdog_s": TIMEOUT[tier] - 30} for i in range(ns)]
 
 
 EXTRA = ("task_reruns_after_excess", "programs", "tasks_measured", "data_dominated_tasks", "declined", "calibrated_reserved_mem", "calibrated_nondata_peak")
@@ -283,8 +283,8 @@ def finalize(tier, merged):
     return {
         "rule": RULE,
         "floors": [
-            ("tasks measured", c.get("tasks_measured", 0), 2000 if tier == "quick" else 15000),
-            ("tasks whose projection is dominated by data (>= 1 chunk above reserved_mem)", c.get("data_dominated_tasks", 0), 1200 if tier == "quick" else 9000),
+            ("tasks measured", c.get("tasks_measured", 0), 2000 if tier == "quick" else 9000),
+            ("tasks whose projection is dominated by data (>= 1 chunk above reserved_mem)", c.get("data_dominated_tasks", 0), 1200 if tier == "quick" else 6000),
             ("distinct programs exercised", len(merged["hist"].get("ops", {})), 30),
         ],
         "coverage_extra": {"max_ratio_peak_over_projected_by_program": ratios},
